@@ -225,6 +225,15 @@ def g_c14(tier, seed):
                 samples=[dict(obj="Planar(leaky)", method="inverse")], failures=fails[:5], errors=[])
 
 
+@grid("C09")
+def g_c09(tier, seed):
+    cnt = []
+    fails = rt.rt_c09(tier, count=cnt)
+    return dict(evaluations=cnt[0] if cnt else 0, distinct_nontrivial=cnt[0] if cnt else 0,
+                rule="mask helpers on a size grid vs the documented patterns; MaskedAutoregressive / Coupling / BlockAutoregressiveNetwork over (dim, cond_dim, width, depth, block size) incl. dim=1, width<dim, depth 0, with EVERY float leaf replaced by random (both signs, large) or all-positive values: autodiff Jacobian zero/sign patterns, completeness for width >= dim",
+                samples=[dict(layer="BNAF", dim=2, depth=0, block_dim=1, weights="random")], failures=fails[:5], errors=[])
+
+
 @grid("C17")
 def g_c17(tier, seed):
     cnt = []
